@@ -151,6 +151,13 @@ func stringOpts(pool []string, pats []pat, wrap func(string, *gen) any) func(g *
 			}
 		}
 		enum := append(strs(in), "zzz")
+		// values one edit away from the constant: longer, shorter, other case
+		others = append(others, c+"x", c[:len(c)-1], "x"+c)
+		out = append(out, in[0]+"x", in[0][:len(in[0])-1])
+		if !strings.HasPrefix(c, "did:") { // URIs: the library normalises the case of the scheme
+			others = append(others, strings.ToUpper(c))
+			out = append(out, strings.ToUpper(in[0]))
+		}
 		pt := pats[g.rnd.Intn(len(pats))]
 		kindP := "pattern0"
 		if strings.Contains(strings.ReplaceAll(pt.re, "(?:", ""), "(") {
